@@ -3,6 +3,8 @@
 * benign twins  - reformat / rename-all-locals / noise / swap-independent-assignments / all-combined variants of the current tree: the rules must report exactly the
                   same finding keys as on the current tree (never more: that would be a false alarm on code where the
                   property holds exactly as much as before; never fewer: that would be a rule keyed on spelling).
+* rule-coverage variants - selftest/*/patch.diff: one breaking edit per rule that no seeded change exercises, and the reverse of every
+                  fix: commit, written by the author of the checks (tools/gen_selftest.py); same treatment as seeded changes.
 * breaking variants - every committed seeded change (seeded/*/patch.diff) that this property's rules are recorded to catch
                   (seeded/MATRIX.json) is applied to a scratch copy; the rules must fire.  A patch that no longer applies
                   to the current tree is skipped and listed.
@@ -61,15 +63,15 @@ def _strip_rn(k):
     return k.replace("_rn", "")
 
 
-def _breaking(prop, src_root, mut):
-    d = os.path.join(VERIF, "seeded", mut)
+def _breaking(prop, src_root, mut, base="seeded"):
+    d = os.path.join(VERIF, base, mut)
     tmp = _copy(src_root)
     try:
         p = subprocess.run(["git", "apply", os.path.join(d, "patch.diff")], cwd=tmp, stdout=subprocess.PIPE, stderr=subprocess.STDOUT, text=True)
         if p.returncode:
-            return {"variant": "seeded:" + mut, "skipped": "patch does not apply to the current tree"}
+            return {"variant": base + ":" + mut, "skipped": "patch does not apply to the current tree"}
         rc, keys, out = _keys(prop, tmp)
-        return {"variant": "seeded:" + mut, "rc": rc, "keys": keys}
+        return {"variant": base + ":" + mut, "rc": rc, "keys": keys}
     finally:
         shutil.rmtree(tmp, ignore_errors=True)
 
@@ -83,10 +85,18 @@ def run(chk, src_root, jobs=16):
     except Exception:
         matrix = {}
     muts = sorted(m for m, r in matrix.items() if prop in r.get("caught_by", []))
-    tasks = [("twin", k) for k in ("reformat", "rename", "noise", "swap", "combo")] + [("mut", m) for m in muts]
+    # rule-coverage variants written by the author of the checks (selftest/): one breaking edit per rule no seeded change exercises,
+    # and the reverse of every fix: commit
+    try:
+        with open(os.path.join(VERIF, "selftest", "INDEX.json")) as f:
+            sidx = json.load(f)
+    except Exception:
+        sidx = {}
+    selfs = sorted(k for k, v in sidx.items() if not v.get("problem") and (v.get("property") == prop or prop in v.get("caught_by", [])))
+    tasks = [("twin", k) for k in ("reformat", "rename", "noise", "swap", "combo")] + [("mut", m) for m in muts] + [("self", m) for m in selfs]
     results = []
     with ThreadPoolExecutor(max_workers=min(jobs, max(1, len(tasks)))) as ex:
-        futs = [ex.submit(_twin, prop, src_root, k) if t == "twin" else ex.submit(_breaking, prop, src_root, k) for t, k in tasks]
+        futs = [ex.submit(_twin, prop, src_root, k) if t == "twin" else ex.submit(_breaking, prop, src_root, k, "seeded" if t == "mut" else "selftest") for t, k in tasks]
         for fu in futs:
             results.append(fu.result())
     problems = []
@@ -111,7 +121,7 @@ def run(chk, src_root, jobs=16):
             summary.append({"variant": v, "fired": fired, "new_findings": len(r["keys"] - base_keys)})
             if not fired:
                 problems.append("%s applies to the current tree but %s's rules do not fire on it" % (v, prop))
-    chk.extra["self_validation"] = {"benign_twins": 5, "breaking_variants": len(muts), "results": summary}
+    chk.extra["self_validation"] = {"benign_twins": 5, "breaking_variants": len(muts), "rule_coverage_variants": len(selfs), "results": summary}
     for s in summary[:6]:
         chk.sample({"self_validation": s})
     for pb in problems:
